@@ -13,6 +13,7 @@ func init() {
 			"(C02-c) list and eval orchestrators consult ANP, NetworkPolicy, BANP/default in that order and each return sits in its row of the decision table (path conditions, truth-table entailment); " +
 			"(C02-first) in every eval-path loop that obtains a policy/rule verdict, the next element is consulted only under verdict == NotCaptured; " +
 			"(C02-d) the admin-policy matchers run everything but the PeerType test for non-IP peers only. " +
+			"(C02-sib) the eight rule-iteration methods (ANP/BANP x ingress/egress x set/query) agree: each ranges over its direction's rules and hands peers, ports, action, the peers in role order and the baseline flag to the helper of its direction. " +
 			"NOT decided: that the sets computed are the right sets; the behaviour of sort.Slice itself."
 		rules.SortedTypestate(p, r)
 		rules.PriorityComparator(p, r)
@@ -20,6 +21,7 @@ func init() {
 		rules.LayerOrder(p, r)
 		rules.FirstMatchLoops(p, r)
 		rules.AdminNeverSelectsIP(p, r)
+		rules.AdminRuleIterationSiblings(p, r, "C02-sib")
 		r.Assume("ANPRulesResult is an iota enumeration whose zero value is NotCaptured (re-checked: the rule looks for `verdict == 0`-valued constants)")
 	})
 }
